@@ -264,6 +264,11 @@ func finalizePipeFrom(p *PipePlan, init model.TplCache) []model.TplCache {
 				// at that point of the message: walk sets in order
 				d.payload = encodeFlowInOrder(d, ex.Addr, local)
 				_ = tplOf
+				if len(d.payload) > p.Cfg.udpSize(d.Proto) {
+					// larger than the receive buffer: the collector sees a cut
+					// datagram, for which there is no exact expectation
+					d.hostile = true
+				}
 				if d.hostile {
 					d.wantPub, d.wantDec = -1, -1
 					d.class = "hostile"
